@@ -978,6 +978,16 @@ Section Graph.
     destruct (Z.of_nat p >? lo) eqn:E; [lia | reflexivity].
   Qed.
 
+  (* PostOffice._read's closing debug check `assert not self._saved_mail[topic]` (evaluated when all
+     readers of the topic are done, i.e. have read everything) cannot fail *)
+  Lemma saved_empty_caught_up t ts : tinv t ts -> readers ts <> [] ->
+    Forall (fun e => snd e = last_prod ts) (readers ts) -> saved ts = [].
+  Proof.
+    intros Hi Hne Hall. rewrite (ti_saved _ _ Hi). apply savedspec_empty.
+    pose proof (minc_in _ Hne) as Hin. apply in_map_iff in Hin as [e [He Hin]].
+    rewrite Forall_forall in Hall. rewrite <- He, (Hall e Hin), (wi_lp _ _ (ti_w _ _ Hi)). lia.
+  Qed.
+
   (* with FINAL as its only reader the target topic keeps no mail once FINAL has caught up *)
   Lemma saved_target_empty st : no_consumers g target -> Inv st -> (target < length g)%nat ->
     cursor st target target = last_prod (get st target) -> saved (get st target) = [].
@@ -1046,6 +1056,21 @@ Section Final.
     destruct (Hall t Ht) as (_ & _ & _ & Hlog & Hex & Hcl). cbn zeta in *.
     rewrite Hs in *. rewrite He in Hcl. split; [|exact Hcl].
     rewrite Hlog, (Hex He). apply firstn_all.
+  Qed.
+
+  (* PostOffice's own debug assertion at the end of a reader (`assert not self._saved_mail[topic]` once
+     every reader of the topic has read everything) holds in the final state of every completed run,
+     so it cannot turn a good run into an AssertionError *)
+  Theorem po_debug_assert_holds fault :
+    let res := po_run g comb fault target spies steps fuel in
+    snd res = Ok (whole_of g comb target) ->
+    forall t, (t < length g)%nat -> readers (get (fst res) t) <> [] ->
+      Forall (fun e => snd e = last_prod (get (fst res) t)) (readers (get (fst res) t)) ->
+      saved (get (fst res) t) = [].
+  Proof.
+    cbn zeta. intros HO t Ht Hne Hall. pose proof (run_post fault) as HP.
+    destruct (po_run g comb fault target spies steps fuel) as [stf [out|e]]; cbn [fst snd] in *; [|discriminate].
+    destruct HP as (_ & [_ HI] & _). eapply saved_empty_caught_up; eauto.
   Qed.
 
   (** 2. Whatever fails: the caller gets the exception or the complete result, never anything else. *)
@@ -1178,23 +1203,345 @@ Lemma po_hyps_big_fuel g comb target spies steps fuel :
 Proof. unfold po_hyps. intuition lia. Qed.
 
 (* ------------------------------------------------------------------------------------------ *)
-(** * The general statement that is not proved here
+(** * Exactly which failures fire, in an arbitrary DAG
 
-    Exactly which failures fire in an arbitrary DAG: the failure at (ft, fp) reaches the caller iff the
-    failure-free run gets producer ft to position fp (emits message fp, or - for a source - is asked
-    for one more message at its end).  Proved above: "only if fp <= length (whole ft)"
-    ([po_exception_only_if_fault]), "if" for the target itself and for chains
-    ([po_fault_on_target_fires], [po_chain_fault_fires]); checked by computation on the examples below. *)
+    The failure at (ft, fp) reaches the caller iff the failure-free run gets producer ft to position fp
+    (emits message fp, or - for a source - is asked for one more message at its end).
+    Proof: the faulty and the failure-free run are the same run until that moment (a simulation of
+    [pull] with and without the failure, no invariant needed), [requested] only grows along a run. *)
 
-Definition requested (g : list node) (st : state) (ft fp : nat) : Prop :=
-  (fp < ppos (get st ft))%nat \/
-  (fp = ppos (get st ft) /\ pdead (get st ft) = true /\ exists msgs, nth_error g ft = Some (Src msgs)).
+Lemma set_nth_oob {A} (l : list A) i x : (length l <= i)%nat -> set_nth l i x = l.
+Proof.
+  revert i; induction l as [|y l IH]; intros [|i] H; cbn [set_nth length] in *; auto; try lia.
+  f_equal. apply IH. lia.
+Qed.
 
-Definition C06_full_po_fault_fires_iff : Prop :=
-  forall g comb target spies steps fuel ft fp,
+Lemma get_upd_oob st t f x : (length st <= t)%nat -> get (upd st t f) x = get st x.
+Proof. intros H. unfold upd. now rewrite set_nth_oob. Qed.
+
+Section Sim.
+  Variables (g : list node) (comb : nat -> list Z -> Z) (ft fp : nat).
+  Notation F := (Some (ft, fp)).
+  Notation req st := (requested g st ft fp).
+
+  (* along a run positions only grow, and a dead producer stays dead where it is *)
+  Definition mono (a b : state) : Prop :=
+    length b = length a /\
+    forall x, (ppos (get a x) <= ppos (get b x))%nat /\
+              (pdead (get a x) = true -> ppos (get b x) = ppos (get a x) -> pdead (get b x) = true).
+
+  Lemma mono_refl a : mono a a.
+  Proof. split; [reflexivity|]. intros x. split; [lia | auto]. Qed.
+
+  Lemma mono_trans a b c : mono a b -> mono b c -> mono a c.
+  Proof.
+    intros [L1 M1] [L2 M2]. split; [congruence|]. intros x.
+    destruct (M1 x) as [P1 D1]. destruct (M2 x) as [P2 D2]. split; [lia|].
+    intros Hd He. apply D2; [apply D1; [exact Hd | lia] | lia].
+  Qed.
+
+  Lemma req_mono a b : mono a b -> req a -> req b.
+  Proof.
+    intros [_ M] [H|(H1 & H2 & H3)]; destruct (M ft) as [P D]; unfold requested.
+    - left. lia.
+    - destruct (Nat.eq_dec (ppos (get b ft)) (ppos (get a ft))) as [He|Hne].
+      + right. split; [lia|]. split; [apply D; auto | exact H3].
+      + left. lia.
+  Qed.
+
+  Lemma mono_upd st t f :
+    (ppos (get st t) <= ppos (f (get st t)))%nat ->
+    (pdead (get st t) = true -> ppos (f (get st t)) = ppos (get st t) -> pdead (f (get st t)) = true) ->
+    mono st (upd st t f).
+  Proof.
+    intros HP HD. split; [apply upd_length|]. intros x.
+    destruct (le_lt_dec (length st) t) as [Ho|Hi]; [rewrite get_upd_oob by exact Ho; split; [lia | auto]|].
+    destruct (Nat.eq_dec t x) as [<-|Hne]; [rewrite get_upd_eq by exact Hi; auto|].
+    rewrite get_upd_neq by exact Hne. split; [lia | auto].
+  Qed.
+
+  (* the acknowledgement steps leave positions and liveness alone *)
+  Definition keeps (f : tstate -> tstate) : Prop := forall ts, ppos (f ts) = ppos ts /\ pdead (f ts) = pdead ts.
+
+  Lemma get_upd_keeps st t f x : keeps f ->
+    ppos (get (upd st t f) x) = ppos (get st x) /\ pdead (get (upd st t f) x) = pdead (get st x).
+  Proof.
+    intros K. destruct (le_lt_dec (length st) t) as [Ho|Hi]; [rewrite get_upd_oob by exact Ho; auto|].
+    destruct (Nat.eq_dec t x) as [<-|Hne]; [rewrite get_upd_eq by exact Hi; apply K|].
+    rewrite get_upd_neq by exact Hne. auto.
+  Qed.
+
+  Lemma mono_keeps st t f : keeps f -> mono st (upd st t f).
+  Proof. intros K. destruct (K (get st t)) as [K1 K2]. apply mono_upd; [lia | congruence]. Qed.
+
+  Lemma req_keeps st t f : keeps f -> (req (upd st t f) <-> req st).
+  Proof. intros K. unfold requested. destruct (get_upd_keeps st t f ft K) as [-> ->]. reflexivity. Qed.
+
+  Lemma keeps_ack_reader r n : keeps (fun ts => ack_reader ts r n).      Proof. split; reflexivity. Qed.
+  Lemma keeps_ack_produced m : keeps (fun ts => ack_produced ts m).      Proof. split; reflexivity. Qed.
+  Lemma keeps_ack_exhausted : keeps ack_exhausted.                        Proof. split; reflexivity. Qed.
+  Lemma keeps_mark_done r : keeps (fun ts => mark_done ts r).             Proof. split; reflexivity. Qed.
+  Lemma keeps_kill : keeps kill_ts.
+  Proof. intros ts. unfold kill_ts. destruct (has_spy ts); split; reflexivity. Qed.
+
+  (* r1: failure-free, r2: with the failure, from the same state *)
+  Definition simrel (st : state) (r1 r2 : state * outcome) : Prop :=
+    mono st (fst r1) /\ (~ req (fst r1) -> r2 = r1) /\ (snd r2 <> Raise -> r2 = r1).
+  Definition pl_ok (pl1 pl2 : state -> nat -> state * outcome) : Prop :=
+    forall st d, length st = length g -> simrel st (pl1 st d) (pl2 st d).
+
+  Lemma gather_sim pl1 pl2 : pl_ok pl1 pl2 -> forall ds st acc, length st = length g ->
+    mono st (fst (fst (gather pl1 ds st acc))) /\
+    (~ req (fst (fst (gather pl1 ds st acc))) -> gather pl2 ds st acc = gather pl1 ds st acc) /\
+    (snd (fst (gather pl2 ds st acc)) <> Raise -> gather pl2 ds st acc = gather pl1 ds st acc).
+  Proof.
+    intros Hpl. induction ds as [|d rest IH]; intros st acc Hl; cbn [gather].
+    - cbn [fst snd]. split; [apply mono_refl|]. split; intros; reflexivity.
+    - destruct (Hpl st d Hl) as (M & S2 & S3).
+      destruct (pl1 st d) as [s1 o1]. destruct (pl2 st d) as [s2 o2]. cbn [fst snd] in *.
+      assert (Hl1 : length s1 = length g) by (destruct M; congruence).
+      destruct o1 as [m1| | |].
+      + destruct (IH s1 (acc ++ [m1]) Hl1) as (M' & S2' & S3').
+        split; [eapply mono_trans; eauto|]. split.
+        * intros Hn. assert (Hn1 : ~ req s1) by (intros X; apply Hn; eapply req_mono; eauto).
+          specialize (S2 Hn1). injection S2 as -> ->. apply S2', Hn.
+        * intros Hr. assert (Ho2 : o2 <> Raise) by (intros ->; apply Hr; reflexivity).
+          specialize (S3 Ho2). injection S3 as -> ->. apply S3', Hr.
+      + split; [exact M|]. split.
+        * intros Hn. specialize (S2 Hn). injection S2 as -> ->. reflexivity.
+        * intros Hr. assert (Ho2 : o2 <> Raise) by (intros ->; apply Hr; reflexivity).
+          specialize (S3 Ho2). injection S3 as -> ->. reflexivity.
+      + split; [exact M|]. split.
+        * intros Hn. specialize (S2 Hn). injection S2 as -> ->. reflexivity.
+        * intros Hr. assert (Ho2 : o2 <> Raise) by (intros ->; apply Hr; reflexivity).
+          specialize (S3 Ho2). injection S3 as -> ->. reflexivity.
+      + split; [exact M|]. split.
+        * intros Hn. specialize (S2 Hn). injection S2 as -> ->. reflexivity.
+        * intros Hr. assert (Ho2 : o2 <> Raise) by (intros ->; apply Hr; reflexivity).
+          specialize (S3 Ho2). injection S3 as -> ->. reflexivity.
+  Qed.
+
+  Lemma faulty_F t p : faulty F t p = true -> ft = t /\ fp = p.
+  Proof. unfold faulty. intros H. apply andb_true_iff in H as [H1 H2]. apply Nat.eqb_eq in H1, H2. auto. Qed.
+
+  Lemma producer_next_sim pl1 pl2 st topic : pl_ok pl1 pl2 -> length st = length g ->
+    simrel st (producer_next g comb None pl1 st topic) (producer_next g comb F pl2 st topic).
+  Proof.
+    intros Hpl Hl. unfold producer_next, simrel.
+    destruct (nth_error g topic) as [[msgs|deps]|] eqn:E.
+    - (* source *)
+      assert (Hlt : (topic < length st)%nat) by (rewrite Hl; apply nth_error_Some; congruence).
+      change (faulty None topic (ppos (get st topic))) with false. cbn iota.
+      destruct (faulty F topic (ppos (get st topic))) eqn:Ef.
+      + apply faulty_F in Ef as [<- Efp].
+        destruct (nth_error msgs (ppos (get st ft))) as [m|] eqn:En; cbn [fst snd].
+        * split; [apply mono_upd; cbn [set_prod ppos pdead]; lia|]. split.
+          -- intros Hn. exfalso. apply Hn. left. rewrite get_upd_eq by exact Hlt. cbn [set_prod ppos]. lia.
+          -- intros Hr. exfalso. apply Hr. reflexivity.
+        * split; [apply mono_upd; cbn [set_prod ppos pdead]; auto|]. split.
+          -- intros Hn. exfalso. apply Hn. right. rewrite get_upd_eq by exact Hlt. cbn [set_prod ppos pdead].
+             split; [exact Efp|]. split; [reflexivity|]. eauto.
+          -- intros Hr. exfalso. apply Hr. reflexivity.
+      + destruct (nth_error msgs (ppos (get st topic))) as [m|]; cbn [fst snd];
+          (split; [apply mono_upd; cbn [set_prod ppos pdead]; auto; lia|]; split; intros; reflexivity).
+    - (* stage *)
+      assert (Hlt : (topic < length g)%nat) by (apply nth_error_Some; congruence).
+      destruct (gather_sim pl1 pl2 Hpl deps st [] Hl) as (M & S2 & S3).
+      destruct (gather pl1 deps st []) as [[s1 o1] in1]. destruct (gather pl2 deps st []) as [[s2 o2] in2].
+      cbn [fst snd] in *.
+      assert (Hl1 : length s1 = length g) by (destruct M; congruence).
+      assert (Hlt1 : (topic < length s1)%nat) by lia.
+      destruct o1 as [m1| | |].
+      + change (faulty None topic (ppos (get s1 topic))) with false. cbn iota. cbn [fst snd].
+        assert (M1 : mono s1 (upd s1 topic (fun ts => set_prod ts (S (ppos ts)) false)))
+          by (apply mono_upd; cbn [set_prod ppos pdead]; lia).
+        split; [eapply mono_trans; eauto|].
+        assert (Hcheck : ~ req (upd s1 topic (fun ts => set_prod ts (S (ppos ts)) false)) \/
+                         snd (if faulty F topic (ppos (get s1 topic))
+                              then (upd s1 topic (fun ts => set_prod ts (ppos ts) true), Raise)
+                              else (upd s1 topic (fun ts => set_prod ts (S (ppos ts)) false), Got (comb topic in1))) <> Raise ->
+                         faulty F topic (ppos (get s1 topic)) = false).
+        { intros [Hn|Hr]; destruct (faulty F topic (ppos (get s1 topic))) eqn:Ef; auto; exfalso.
+          - apply faulty_F in Ef as [<- Efp]. apply Hn. left. rewrite get_upd_eq by exact Hlt1.
+            cbn [set_prod ppos]. lia.
+          - apply Hr. reflexivity. }
+        split.
+        * intros Hn. assert (Hn1 : ~ req s1) by (intros X; apply Hn; eapply req_mono; eauto).
+          specialize (S2 Hn1). injection S2 as -> -> ->. cbn zeta. rewrite Hcheck by (left; exact Hn). reflexivity.
+        * intros Hr. assert (Ho2 : o2 <> Raise) by (intros ->; apply Hr; reflexivity).
+          specialize (S3 Ho2). injection S3 as -> -> ->. cbn zeta in *. rewrite Hcheck by (right; exact Hr). reflexivity.
+      + cbn [fst snd].
+        assert (M1 : mono s1 (upd s1 topic (fun ts => set_prod ts (ppos ts) true)))
+          by (apply mono_upd; cbn [set_prod ppos pdead]; auto).
+        split; [eapply mono_trans; eauto|]. split.
+        * intros Hn. assert (Hn1 : ~ req s1) by (intros X; apply Hn; eapply req_mono; eauto).
+          specialize (S2 Hn1). injection S2 as -> -> ->. reflexivity.
+        * intros Hr. assert (Ho2 : o2 <> Raise) by (intros ->; apply Hr; reflexivity).
+          specialize (S3 Ho2). injection S3 as -> -> ->. reflexivity.
+      + cbn [fst snd].
+        assert (M1 : mono s1 (upd s1 topic (fun ts => set_prod ts (ppos ts) true)))
+          by (apply mono_upd; cbn [set_prod ppos pdead]; auto).
+        split; [eapply mono_trans; eauto|]. split.
+        * intros Hn. assert (Hn1 : ~ req s1) by (intros X; apply Hn; eapply req_mono; eauto).
+          specialize (S2 Hn1). injection S2 as -> -> ->. reflexivity.
+        * intros Hr. assert (Ho2 : o2 <> Raise) by (intros ->; apply Hr; reflexivity).
+          specialize (S3 Ho2). injection S3 as -> -> ->. reflexivity.
+      + cbn [fst snd].
+        assert (M1 : mono s1 (upd s1 topic (fun ts => set_prod ts (ppos ts) true)))
+          by (apply mono_upd; cbn [set_prod ppos pdead]; auto).
+        split; [eapply mono_trans; eauto|]. split.
+        * intros Hn. assert (Hn1 : ~ req s1) by (intros X; apply Hn; eapply req_mono; eauto).
+          specialize (S2 Hn1). injection S2 as -> -> ->. reflexivity.
+        * intros Hr. assert (Ho2 : o2 <> Raise) by (intros ->; apply Hr; reflexivity).
+          specialize (S3 Ho2). injection S3 as -> -> ->. reflexivity.
+    - cbn [fst snd]. split; [apply mono_refl|]. split; intros; reflexivity.
+  Qed.
+
+  (* the tail of PostOffice._read / _fetch_new after next(producer) *)
+  Definition finish (topic reader : nat) (n : Z) (x : state * outcome) : state * outcome :=
+    let '(st1, r) := x in
+    match r with
+    | Got m => (upd (upd st1 topic (fun ts => ack_produced ts m)) topic (fun ts => ack_reader ts reader n), Got m)
+    | Stop => (upd (upd st1 topic ack_exhausted) topic (fun ts => mark_done ts reader), Stop)
+    | o => (st1, o)
+    end.
+
+  Lemma finish_mono topic reader n x : mono (fst x) (fst (finish topic reader n x)).
+  Proof.
+    destruct x as [s [m| | |]]; cbn [finish fst]; try apply mono_refl;
+      (eapply mono_trans; [apply mono_keeps|apply mono_keeps]);
+      auto using keeps_ack_reader, keeps_ack_produced, keeps_ack_exhausted, keeps_mark_done.
+  Qed.
+
+  Lemma finish_req topic reader n x : req (fst (finish topic reader n x)) <-> req (fst x).
+  Proof.
+    destruct x as [s [m| | |]]; cbn [finish fst]; try reflexivity.
+    - rewrite req_keeps by apply keeps_ack_reader. apply req_keeps, keeps_ack_produced.
+    - rewrite req_keeps by apply keeps_mark_done. apply req_keeps, keeps_ack_exhausted.
+  Qed.
+
+  Lemma finish_raise topic reader n x : snd (finish topic reader n x) = Raise <-> snd x = Raise.
+  Proof. destruct x as [s [m| | |]]; cbn [finish snd]; split; congruence. Qed.
+
+  Lemma finish_sim st topic reader n x1 x2 : simrel st x1 x2 ->
+    simrel st (finish topic reader n x1) (finish topic reader n x2).
+  Proof.
+    intros (M & S2 & S3). split; [eapply mono_trans; [exact M | apply finish_mono]|]. split.
+    - intros Hn. rewrite S2; [reflexivity|]. intros X. apply Hn. now apply finish_req.
+    - intros Hr. rewrite S3; [reflexivity|]. intros X. apply Hr. now apply finish_raise.
+  Qed.
+
+  Lemma pull_body_sim pl1 pl2 st topic reader : pl_ok pl1 pl2 -> length st = length g ->
+    simrel st (pull_body g comb None pl1 st topic reader) (pull_body g comb F pl2 st topic reader).
+  Proof.
+    intros Hpl Hl. unfold pull_body.
+    destruct (exhausted (get st topic) && _).
+    { split; [apply mono_keeps, keeps_mark_done|]. split; intros; reflexivity. }
+    destruct (find_saved _ _).
+    { split; [apply mono_keeps, keeps_ack_reader|]. split; intros; reflexivity. }
+    destruct (pdead (get st topic)).
+    - split; [|split; intros; reflexivity]. cbn [fst].
+      eapply mono_trans; apply mono_keeps; auto using keeps_ack_exhausted, keeps_mark_done.
+    - exact (finish_sim st topic reader _ _ _ (producer_next_sim pl1 pl2 st topic Hpl Hl)).
+  Qed.
+
+  Lemma pull_sim : forall fuel st topic reader, length st = length g ->
+    simrel st (pull g comb None fuel st topic reader) (pull g comb F fuel st topic reader).
+  Proof.
+    induction fuel as [|f IH]; intros st topic reader Hl.
+    - cbn [pull]. split; [apply mono_refl|]. split; intros; reflexivity.
+    - rewrite !pull_S. apply pull_body_sim; auto. intros s d Hs. apply IH, Hs.
+  Qed.
+
+  Lemma mono_kill st : mono st (map kill_ts st).
+  Proof.
+    split; [apply map_length|]. intros x. rewrite get_map_kill.
+    destruct (keeps_kill (get st x)) as [-> ->]. split; [lia | auto].
+  Qed.
+
+  Lemma drain_sim target fuel : forall steps st acc, length st = length g ->
+    mono st (fst (drain g comb None steps fuel st target acc)) /\
+    (~ req (fst (drain g comb None steps fuel st target acc)) ->
+       drain g comb F steps fuel st target acc = drain g comb None steps fuel st target acc) /\
+    (snd (drain g comb F steps fuel st target acc) <> Err 1 ->
+       drain g comb F steps fuel st target acc = drain g comb None steps fuel st target acc).
+  Proof.
+    induction steps as [|k IH]; intros st acc Hl.
+    - cbn [drain fst snd]. split; [apply mono_refl|]. split; intros; reflexivity.
+    - rewrite !drain_unfold. destruct (pull_sim fuel st target target Hl) as (M & S2 & S3).
+      destruct (pull g comb None fuel st target target) as [s1 o1].
+      destruct (pull g comb F fuel st target target) as [s2 o2]. cbn [fst snd] in *.
+      assert (Hl1 : length s1 = length g) by (destruct M; congruence).
+      assert (Ho2 : snd (match o2 with
+                         | Got m => drain g comb F k fuel s2 target (acc ++ [m])
+                         | Stop => (s2, Ok acc)
+                         | Raise => (map kill_ts s2, Err 1)
+                         | OutOfFuel => (s2, Err 99)
+                         end) <> Err 1 -> o2 <> Raise) by (intros Hr ->; apply Hr; reflexivity).
+      destruct o1 as [m1| | |].
+      + destruct (IH s1 (acc ++ [m1]) Hl1) as (M' & S2' & S3').
+        split; [eapply mono_trans; eauto|]. split.
+        * intros Hn. assert (Hn1 : ~ req s1) by (intros X; apply Hn; eapply req_mono; eauto).
+          specialize (S2 Hn1). injection S2 as -> ->. apply S2', Hn.
+        * intros Hr. specialize (S3 (Ho2 Hr)). injection S3 as -> ->. apply S3', Hr.
+      + cbn [fst snd]. split; [exact M|]. split.
+        * intros Hn. specialize (S2 Hn). injection S2 as -> ->. reflexivity.
+        * intros Hr. specialize (S3 (Ho2 Hr)). injection S3 as -> ->. reflexivity.
+      + cbn [fst snd]. split; [eapply mono_trans; [exact M | apply mono_kill]|]. split.
+        * intros Hn. assert (Hn1 : ~ req s1) by (intros X; apply Hn; eapply req_mono; [apply mono_kill | exact X]).
+          specialize (S2 Hn1). injection S2 as -> ->. reflexivity.
+        * intros Hr. specialize (S3 (Ho2 Hr)). injection S3 as -> ->. reflexivity.
+      + cbn [fst snd]. split; [exact M|]. split.
+        * intros Hn. specialize (S2 Hn). injection S2 as -> ->. reflexivity.
+        * intros Hr. specialize (S3 (Ho2 Hr)). injection S3 as -> ->. reflexivity.
+  Qed.
+
+  Lemma requested_dec st : req st \/ ~ req st.
+  Proof.
+    unfold requested. destruct (lt_dec fp (ppos (get st ft))) as [H|H]; [left; left; exact H|].
+    destruct (Nat.eq_dec fp (ppos (get st ft))) as [He|Hne]; [|right; intros [X|(X & _)]; lia].
+    destruct (pdead (get st ft)) eqn:Ed; [|right; intros [X|(_ & X & _)]; [lia | discriminate]].
+    destruct (nth_error g ft) as [[msgs|deps]|] eqn:E.
+    - left. right. eauto.
+    - right. intros [X|(_ & _ & msgs & X)]; [lia | discriminate].
+    - right. intros [X|(_ & _ & msgs & X)]; [lia | discriminate].
+  Qed.
+
+  (** 6. The failure at (ft, fp) reaches the caller iff the failure-free run gets producer ft to
+      position fp. *)
+  Theorem po_fault_fires_iff target spies steps fuel :
     po_hyps g comb target spies steps fuel ->
-    (snd (po_run g comb (Some (ft, fp)) target spies steps fuel) = Err 1 <->
+    (snd (po_run g comb F target spies steps fuel) = Err 1 <->
      requested g (fst (po_run g comb None target spies steps fuel)) ft fp).
+  Proof.
+    intros Hyp. pose proof Hyp as (Hwf & Hnd & Ht & Hsp & Hfu & Hst).
+    assert (Hl : length (init g target spies) = length g)
+      by (unfold init; rewrite map_length, combine_length, seq_length; lia).
+    destruct (drain_sim target fuel steps (init g target spies) [] Hl) as (_ & S2 & S3).
+    fold (po_run g comb None target spies steps fuel) in S2, S3.
+    fold (po_run g comb F target spies steps fuel) in S2, S3.
+    split.
+    - intros HE. destruct (requested_dec (fst (po_run g comb None target spies steps fuel))) as [Hr|Hn]; [exact Hr|].
+      exfalso. rewrite (S2 Hn) in HE.
+      rewrite (proj1 (po_no_fault_complete _ _ _ _ _ _ Hyp)) in HE. discriminate.
+    - intros Hr. destruct (po_never_silently_truncated _ _ _ _ _ _ Hyp F) as [HE|HO]; [exact HE|]. exfalso.
+      assert (Hne : snd (po_run g comb F target spies steps fuel) <> Err 1) by (rewrite HO; discriminate).
+      rewrite <- (S3 Hne) in Hr.
+      pose proof (run_post _ _ _ _ _ _ Hyp F) as HP.
+      destruct (po_run g comb F target spies steps fuel) as [stf [out|e]]; cbn [fst snd] in *; [|discriminate].
+      destruct HP as (_ & [Hlen HI] & _).
+      destruct Hr as [Hlt|(He & Hd & msgs & E)].
+      + destruct (le_lt_dec (length g) ft) as [Hge|Hin].
+        * unfold get in Hlt. rewrite nth_overflow in Hlt by lia. cbn [ppos] in Hlt. lia.
+        * pose proof (ti_nofault _ _ _ _ _ _ _ (HI ft Hin) fp Hlt) as X.
+          unfold faulty in X. now rewrite !Nat.eqb_refl in X.
+      + assert (Hin : (ft < length g)%nat) by (apply nth_error_Some; congruence).
+        pose proof (ti_dead _ _ _ _ _ _ _ (HI ft Hin)) as Hde. rewrite Hd in Hde.
+        pose proof (ti_srcend _ _ _ _ _ _ _ (HI ft Hin) (eq_sym Hde) msgs E) as X.
+        unfold faulty in X. rewrite <- He in X. now rewrite !Nat.eqb_refl in X.
+  Qed.
+
+End Sim.
 
 (* ------------------------------------------------------------------------------------------ *)
 (** * Examples: the hypotheses are satisfiable, on graphs with a shared dependency *)
@@ -1279,8 +1626,24 @@ Example lopsided_runs :
   snd (po_run lopsided comb_std (Some (0%nat, 2%nat)) 4 [true; true; true; false; true] 10 6) = Err 1.
 Proof. vm_compute. repeat split; reflexivity. Qed.
 
-(* the unproved general characterisation, decided by computation for every failure position of the
-   two example graphs *)
+(* [nodup_deps] is needed: with a repeated dependency the two reads of one round share one reader
+   cursor in the model (in the real PostOffice the second generator trips the
+   `_last_msg_read == msg_number - 1` assertion), and the result is not the zip of the columns *)
+Example nodup_deps_needed :
+  wf_graph [Src [1; 2]; Stage [0%nat; 0%nat]] /\
+  snd (po_run [Src [1; 2]; Stage [0%nat; 0%nat]] comb_std None 1 [false; false] 10 5) = Ok [comb_std 1 [1; 2]] /\
+  whole_of [Src [1; 2]; Stage [0%nat; 0%nat]] comb_std 1 = [comb_std 1 [1; 1]; comb_std 1 [2; 2]].
+Proof.
+  split; [|vm_compute; split; reflexivity].
+  intros t deps E. graph_cases E; repeat constructor; discriminate.
+Qed.
+
+(* one spy flag per topic is needed: [init] zips the topics with the flags, so missing flags drop topics *)
+Example spies_length_needed :
+  snd (po_run [Src [1; 2]] comb_std None 0 [] 10 5) = Err 99.
+Proof. vm_compute. reflexivity. Qed.
+
+(* po_fault_fires_iff cross-checked by computation for every failure position of the two example graphs *)
 Definition requestedb (g : list node) (st : state) (ft fp : nat) : bool :=
   Nat.ltb fp (ppos (get st ft)) ||
   (Nat.eqb fp (ppos (get st ft)) && pdead (get st ft) && match nth_error g ft with Some (Src _) => true | _ => false end).
